@@ -678,6 +678,10 @@ pub fn run_script(script: &str, trace: &str) {
         }
         let v: Value = serde_json::from_str(&line).expect("json op");
         r.exec(&v);
+        // every hang leaves a spinning thread behind and costs the watchdog's limit: a trace with a dozen of them is rejected anyway
+        if r.hangs >= 12 {
+            break;
+        }
     }
     r.out.flush().unwrap();
     println!("{}", json!({"events": r.events, "panics": r.panics, "hangs": r.hangs}));
